@@ -27,6 +27,9 @@ CHECKS = {
  "C13": ("model_checking", "exhaustive enumeration of operation sequences over {Len, Marshal, wrap, decode} on fresh instances (history-independence oracle)",
          "For every standalone element of the extended alphabets and every message of the corpus, every sequence up to length 3 (quick) / 4 (thorough) over {L=Len(), M=MarshalBinary(), W=size+encode through an enclosing wrapper (bundle-add, instruction, match, flow-mod, group-mod), D=encode+decode into a fresh receiver+dump} runs on a fresh instance rebuilt from its builder recipe; every observation must equal what the same operation yields first on a fresh instance. The full message corpus runs at depth 2.",
          "A write-back is acceptable exactly when it is invisible to these observations. Transaction ids are masked (each instance draws its own).", "4/C13"),
+ "C04": ("model_checking", "bounded-exhaustive enumeration of switch-originated shapes, one-field-off-base values and two-step parse histories; frames written by an independent reference encoder, parsed by the real Parse and compared field by field",
+         "Every tree of the switch-originated corpus (every kind Parse has a type for; hello 0..3 elements x 1..3 bitmaps; all error types x 3 data sizes; packet-in x reasons x 9 payload kinds; stats replies with 0..3 records; every decodable match field unmasked and masked in flow-removed, packet-in and flow-stats; every action and instruction kind and all ordered pairs of the 32 action kinds inside flow-stats records; match-field pairs/triples; Nicira TLV-table and bundle replies) and every scalar/fixed-width field of one base message per kind varied alone over its whole value alphabet is serialised by engine/wire, parsed by openflow13.Parse, read back through exported fields and diffed against the tree. All ordered pairs of base messages run as two-step histories (parse A, parse B, read A again), and the last 8 parsed messages are re-read after every parse.",
+         "Match fields the library has no decoder for at the pinned commit (a fixed list in checks/c04.go) are outside 'supported match-field kinds' and are not generated. Failing trees are minimised (delta debugging on the model tree) so that the signature names the element kind at fault.", "4/C04"),
 }
 ORDER = ["C%02d" % i for i in range(1, 20)]
 NA = {}
